@@ -10,9 +10,7 @@ use anyhow::bail;
 
 use crate::diff::DiffLine;
 use crate::formatln;
-use crate::lossy_string;
 use crate::newline::BytesNewline;
-use crate::newline::SplitLinesByNewline;
 use crate::newline::StringNewline;
 use crate::outcome::Outcome;
 use crate::output::ExitStatus;
@@ -24,18 +22,11 @@ pub(super) trait OutcomeTestGenerator {
 
 impl Outcome {
     fn generate_testcase_expression(&self) -> String {
-        // prepend by command
-        let expression_lines = self.testcase.shell_expression.as_bytes();
-        let expression_lines = expression_lines.split_at_newline();
-        // an empty shell expression (`$ ` with nothing after it) has no lines
-        let first_line = expression_lines.first().copied().unwrap_or_default();
-        let mut generated = format!("$ {}", lossy_string!(&first_line.assure_newline()));
-        expression_lines.iter().skip(1).for_each(|line| {
-            generated.push_str(&format!(
-                "> {}",
-                lossy_string!(&(&line[..]).assure_newline())
-            ))
-        });
+        // one `$` line, then a `>` line for every further line of the shell
+        // expression -- also for empty ones and for a final empty one
+        let mut lines = self.testcase.shell_expression.split('\n');
+        let mut generated = formatln!("$ {}", lines.next().unwrap_or_default());
+        lines.for_each(|line| generated.push_str(&formatln!("> {}", line)));
         generated
     }
 
